@@ -1,0 +1,14 @@
+//go:build verif
+
+package threshold
+
+// VerifYield, when set by a verification harness built with the `verif` tag,
+// is called at the scheduling points of Scheme that lie outside its critical
+// sections, with the name of the point.
+var VerifYield func(point string)
+
+func verifYield(point string) {
+	if f := VerifYield; f != nil {
+		f(point)
+	}
+}
